@@ -865,7 +865,8 @@ Theorem poll_input_sticky fuel dest r w p r' w' e :
      | PWake => output_buffer (rsp r) <> []
      | _ => False
      end) /\
-  (poll_parses dest r = true -> output_buffer (rsp r) = [] -> p = PReady (inr (perr_kind e)) /\ w' = w).
+  (poll_parses dest r = true -> output_buffer (rsp r) = [] -> p = PReady (inr (perr_kind e)) /\ w' = w) /\
+  (poll_parses dest r = false -> is_inl p = true /\ w' = w).
 Proof.
   intros Hinv He Hf E.
   assert (EMPTY : stream_buffer (rsp r) = [] ->
@@ -908,22 +909,25 @@ Proof.
   destruct dest as [[|pc]|].
   - rewrite poll_input_zero in E. injection E as <- <- <-.
     split; [reflexivity|]. split; [reflexivity|]. split; [exact Hinv|]. split; [exact He|].
-    unfold poll_parses. split; discriminate.
+    unfold poll_parses. split; [discriminate|]. split; [discriminate|]. intros _. split; reflexivity.
   - unfold poll_input in E. cbv zeta in E. destruct (stream_buffer (rsp r)) as [|x sb] eqn:Esb.
     + destruct (EMPTY eq_refl E) as (B1 & B2 & B3 & B4 & B5 & B6).
-      split; [exact B1|]. split; [exact B2|]. split; [exact B3|]. split; [exact B4|]. split; intros _; assumption.
+      split; [exact B1|]. split; [exact B2|]. split; [exact B3|]. split; [exact B4|].
+      split; [intros _; exact B5|]. split; [intros _; exact B6|]. unfold poll_parses. rewrite Esb. discriminate.
     + cbv beta iota in E. injection E as <- <- <-. cbn [rsp].
       destruct Hinv as [HRI HI].
       pose proof (consume_stream_abs (rsp r) (N.min (N.pos pc) (len (x :: sb))) HRI) as CA.
       split; [reflexivity|]. split; [reflexivity|].
       split; [split; [apply consume_stream_RI; exact HRI|rewrite CA; apply consume_stream_inv; exact HI]|].
-      split; [rewrite CA; exact He|]. unfold poll_parses. rewrite Esb. split; discriminate.
+      split; [rewrite CA; exact He|]. unfold poll_parses. rewrite Esb.
+      split; [discriminate|]. split; [discriminate|]. intros _. split; reflexivity.
   - unfold poll_input in E. cbv zeta in E. destruct (stream_buffer (rsp r)) as [|x sb] eqn:Esb.
     + destruct (EMPTY eq_refl E) as (B1 & B2 & B3 & B4 & B5 & B6).
-      split; [exact B1|]. split; [exact B2|]. split; [exact B3|]. split; [exact B4|]. split; intros _; assumption.
+      split; [exact B1|]. split; [exact B2|]. split; [exact B3|]. split; [exact B4|].
+      split; [intros _; exact B5|]. split; [intros _; exact B6|]. unfold poll_parses. rewrite Esb. discriminate.
     + cbv beta iota in E. injection E as <- <- <-.
       split; [reflexivity|]. split; [reflexivity|]. split; [exact Hinv|]. split; [exact He|].
-      unfold poll_parses. rewrite Esb. split; discriminate.
+      unfold poll_parses. rewrite Esb. split; [discriminate|]. split; [discriminate|]. intros _. split; reflexivity.
 Qed.
 
 (* item 1, end of file persists: once the parser stands at the header that ends the active stream, every
@@ -1695,6 +1699,87 @@ Proof.
   destruct X as [G' S]. split; [split; [exact G'|apply (ac_inv _ _ _ _ _ _ AC)]|apply (ws_ok _ _ S Wok)].
 Qed.
 
+(* ---- the awaited forms of the persistence theorems, and the gate in one line ---- *)
+Lemma await_input_zero f r w : await_input maxc (S f) (Some 0) r w = Ok (inl (0, []), r) w.
+Proof. cbn [await_input]. rewrite poll_input_zero. reflexivity. Qed.
+
+(* item 3: poll_input opens the gate only when it went to the parser, returned Ok, and the active stream is the
+   role's final stream; nothing ever closes it *)
+Corollary poll_input_gate fuel dest r w p r' w' :
+  pinv (rsp r) -> bytes_ok (remaining w) -> (length (wscript w) + length (remaining w) + 2 <= fuel)%nat ->
+  poll_input maxc fuel dest r w = (p, r', w') ->
+  (rwriteable r = true -> rwriteable r' = true) /\
+  (rwriteable r' = true -> rwriteable r = true \/
+     (poll_parses dest r = true /\ is_inl p = true /\ is_final_stream r = true)) /\
+  (poll_parses dest r = true -> is_inl p = true -> is_final_stream r = true -> rwriteable r' = true).
+Proof.
+  intros Hinv Hrem Hf E. destruct (poll_input_reads _ _ _ _ _ _ _ Hinv Hrem Hf E) as (dl & _ & _ & W). rewrite W.
+  split; [intros ->; reflexivity|]. split.
+  - destruct (rwriteable r); [left; reflexivity|]. cbn [orb]. intros H. right.
+    apply andb_prop in H. destruct H as [H H3]. apply andb_prop in H. destruct H as [H1 H2]. repeat split; assumption.
+  - intros -> -> ->. apply orb_true_r.
+Qed.
+
+(* item 4 (C11), awaited: at an error header the awaited read never suspends for good and never touches the
+   transport's read side; when it goes to the parser it returns the error again (or the error of a failing flush) *)
+Theorem await_input_sticky e : forall fuel dest r w, pinv (rsp r) -> bytes_ok (remaining w) -> err_at (abs (rsp r)) e ->
+  match await_input maxc fuel dest r w with
+  | Ok (res, r') w' =>
+      remaining w' = remaining w /\ rscript w' = rscript w /\ pinv (rsp r') /\ err_at (abs (rsp r')) e /\
+      (poll_parses dest r = true ->
+         exists k, res = inr k /\ (k = perr_kind e \/ k = EK_WriteZero \/ k = EK_Transport)) /\
+      (poll_parses dest r = false -> w' = w /\ exists x, res = inl x)
+  | Halt o w' => o = OFuel
+  end.
+Proof.
+  induction fuel as [|f IH]; intros dest r w Hinv Hrem He; [reflexivity|]. cbn [await_input].
+  destruct (poll_input maxc (io_fuel w (len (buffer (rsp r)))) dest r w) as [[p r1] w1] eqn:EP.
+  destruct (poll_input_sticky (io_fuel w (len (buffer (rsp r)))) dest r w p r1 w1 e Hinv He ltac:(rewrite io_fuel_remaining; lia) EP)
+    as (S1 & S2 & S3 & S4 & S5 & _ & S7).
+  destruct (poll_input_reads (io_fuel w (len (buffer (rsp r)))) dest r w p r1 w1 Hinv Hrem ltac:(rewrite io_fuel_remaining; lia) EP) as (dl & A & C & _).
+  destruct (poll_parses dest r) eqn:Epp.
+  - specialize (S5 eq_refl). destruct p as [[x|k]| |]; try contradiction.
+    + split; [exact S1|]. split; [exact S2|]. split; [exact S3|]. split; [exact S4|]. split; [|discriminate].
+      intros _. exists k. split; [reflexivity|]. destruct S5 as [S5|[S5 _]]; [left; exact S5|right; exact S5].
+    + unfold on_wake. cbn [andb]. cbn [pi_case] in C. destruct C as (_ & C2 & C3).
+      assert (Esb : stream_buffer (rsp r1) = stream_buffer (rsp r)) by (rewrite C2, C3; reflexivity).
+      specialize (IH dest r1 (w_bump w1) S3 ltac:(exact (acct_bytes_ok _ _ _ _ _ _ A Hrem)) S4).
+      destruct (await_input maxc f dest r1 (w_bump w1)) as [[res r2] w2|o w2]; [|exact IH].
+      destruct IH as (I1 & I2 & I3 & I4 & I5 & I6).
+      split; [rewrite I1; exact S1|]. split; [rewrite I2; exact S2|]. split; [exact I3|]. split; [exact I4|].
+      rewrite (poll_parses_eq dest r1 r Esb), Epp in I5. split; [exact I5|discriminate].
+  - destruct (S7 eq_refl) as [S8 ->]. destruct p as [[x|k]| |]; try discriminate S8.
+    split; [reflexivity|]. split; [reflexivity|]. split; [exact S3|]. split; [exact S4|]. split; [discriminate|].
+    intros _. split; [reflexivity|]. exists x. reflexivity.
+Qed.
+
+(* item 1, awaited: at the end of the stream every read into a non-empty buffer returns Ok(0) (or the error of a
+   failing flush) without touching the transport's read side *)
+Theorem await_input_eof c : 0 < c -> forall fuel r w, pinv (rsp r) -> at_term (abs (rsp r)) = true ->
+  stream_buffer (rsp r) = [] ->
+  match await_input maxc fuel (Some c) r w with
+  | Ok (res, r') w' =>
+      remaining w' = remaining w /\ rscript w' = rscript w /\ pinv (rsp r') /\
+      at_term (abs (rsp r')) = true /\ stream_buffer (rsp r') = [] /\
+      (res = inl (0, []) \/ exists k, res = inr k /\ (k = EK_WriteZero \/ k = EK_Transport))
+  | Halt o w' => o = OFuel
+  end.
+Proof.
+  intros Hc. induction fuel as [|f IH]; intros r w Hinv Ht Esb; [reflexivity|]. cbn [await_input].
+  destruct (poll_input maxc (io_fuel w (len (buffer (rsp r)))) (Some c) r w) as [[p r1] w1] eqn:EP.
+  destruct (poll_input_eof (io_fuel w (len (buffer (rsp r)))) c r w p r1 w1 Hinv Ht Esb Hc ltac:(rewrite io_fuel_remaining; lia) EP)
+    as (S1 & S2 & S3 & S4 & S5 & S6 & _).
+  destruct p as [[[n b]|k]| |]; try contradiction.
+  - destruct S6 as [-> ->]. split; [exact S1|]. split; [exact S2|]. split; [exact S3|]. split; [exact S4|].
+    split; [exact S5|left; reflexivity].
+  - split; [exact S1|]. split; [exact S2|]. split; [exact S3|]. split; [exact S4|]. split; [exact S5|].
+    right. exists k. split; [reflexivity|apply S6].
+  - unfold on_wake. cbn [andb]. specialize (IH r1 (w_bump w1) S3 S4 S5).
+    destruct (await_input maxc f (Some c) r1 (w_bump w1)) as [[res r2] w2|o w2]; [|exact IH].
+    destruct IH as (I1 & I2 & I3 & I4 & I5 & I6).
+    split; [rewrite I1; exact S1|]. split; [rewrite I2; exact S2|]. split; [exact I3|]. split; [exact I4|]. split; assumption.
+Qed.
+
 (* ------------------------------------------------------------------------------------------ *)
 (* Part 7: the block points outside poll_input (C08, item 2b)                                   *)
 (* ------------------------------------------------------------------------------------------ *)
@@ -1941,6 +2026,9 @@ Print Assumptions poll_input_eof.
 Print Assumptions poll_input_zero_is_eof.
 Print Assumptions poll_input_aborted.
 Print Assumptions boundary_loop_abort.
+Print Assumptions poll_input_gate.
+Print Assumptions await_input_sticky.
+Print Assumptions await_input_eof.
 Print Assumptions record_boundary_at_err.
 Print Assumptions set_stream_step.
 Print Assumptions do_writeable_gate.
